@@ -48,6 +48,11 @@ class PyRaise(Exception):
         self.msg = msg
 
 
+# opaque sorts that stand for plain objects (instances of classes without __bool__ / __len__): always truthy
+TRUTHY_OPAQUE = {"Det", "Election"}
+TRUTH_HOOKS = []
+
+
 class SMod:
     """module / dotted external name"""
 
@@ -355,9 +360,22 @@ class Run:
                 return o.hi - o.lo != 0 if is_z3(o.hi - o.lo) else (o.hi - o.lo) != 0
             if isinstance(o, HDict):
                 return len(o.items) > 0
+            if isinstance(o, HObj):
+                return True     # instance of a repository class: none of them defines __bool__ / __len__ (checked by selftest)
+            for h in TRUTH_HOOKS:
+                r = h(self, v, o)
+                if r is not NotImplemented:
+                    return r
+            # a library container (array, frame, mapping under construction ...): its truth value is its emptiness, or an
+            # error (numpy arrays with several elements) - never assumed
+            raise Unsupported("truth value of %s" % type(o).__name__)
+        if isinstance(v, (SFunc, SCls, SMod)):
             return True
-        if isinstance(v, (SFunc, SCls, SMod, SOpaque)):
-            return True
+        if isinstance(v, SOpaque):
+            if v.sort in TRUTHY_OPAQUE:
+                return True
+            # the truth value of an opaque library value (an array, a pandas object, ...) is not known: never assumed
+            raise Unsupported("truth value of an opaque %s" % v.sort)
         raise Unsupported("truth of %r" % (v,))
 
     def unopt(self, v, what="value"):
@@ -609,6 +627,10 @@ class Interp:
             return SMod("builtins." + name)
         if fr.spec is not None:
             raise Unsupported("unknown name %s in specification" % name, node)
+        import builtins as _b
+        if hasattr(_b, name):
+            # a Python builtin the engine has no model for: outside the fragment, never a NameError
+            raise Unsupported("no model for builtin %s" % name, node)
         raise PyRaise("NameError", name)
 
     # -- expressions --------------------------------------------------------
